@@ -226,4 +226,53 @@ def dlgServer (ds : List Dlg) (ks : List Kind) (cap : Nat) : DServer := fun i of
 def drun (ds : List Dlg) (fuel : Nat) (ks : List Kind) (cap : Nat) (s : DIter) : DOut :=
   drunS (dlgServer ds ks cap) fuel 0 s
 
+
+/-! ## offset-based iterators (contacts/blocked, photos, channels/participants, messages/stickers/featured)
+
+Not named by C39's anchors but built on a copy of the same `Next/bufNext/apply` skeleton: the offset is an
+item count (`m.offset += len(page)`), the page is buffered as sent. -/
+
+structure OIter where
+  buf : List Nat := []
+  pos : Nat := 0
+  limit : Nat
+  lastBatch : Bool := false
+  offset : Nat := 0
+  deriving Repr, DecidableEq
+
+def OIter.init (limit : Nat) : OIter := { limit := limit }
+
+/-- `apply` with the regenerated lastBatch rule code of the answer's constructor. -/
+def OIter.apply (s : OIter) (code : Nat) (pg : List Nat) : OIter :=
+  if s.lastBatch then s
+  else { s with lastBatch := lbRule code pg.length s.limit, offset := s.offset + pg.length, buf := pg, pos := 0 }
+
+structure OOut where
+  yields : List Nat := []
+  reqs : List (Nat × Nat) := []
+  done : Bool := false
+  deriving Repr, DecidableEq
+
+/-- The server: items in its order, `(offset, limit)` ↦ `items[offset, offset + min limit cap)`; the
+complete-answer constructor (rule `codeFull`) only when nothing remains beyond the page. -/
+def offServer (items : List Nat) (ks : List Kind) (codeFull codeSlice cap : Nat) (i off limit : Nat) : Nat × List Nat :=
+  let rem := items.drop off
+  let ps := min limit cap
+  (if ks.getD i .slice = .full ∧ rem.length ≤ ps then codeFull else codeSlice, rem.take ps)
+
+def orunS (srv : Nat → Nat → Nat → Nat × List Nat) : Nat → Nat → OIter → OOut
+  | 0, _, _ => {}
+  | fuel + 1, i, s =>
+    if s.pos < s.buf.length then
+      let o := orunS srv fuel i { s with pos := s.pos + 1 }
+      { o with yields := s.buf.getD s.pos 0 :: o.yields }
+    else
+      let a := srv i s.offset s.limit
+      let s' := s.apply a.1 a.2
+      let r := (s.offset, s.limit)
+      if s'.pos < s'.buf.length then
+        let o := orunS srv fuel (i + 1) { s' with pos := s'.pos + 1 }
+        { yields := s'.buf.getD s'.pos 0 :: o.yields, reqs := r :: o.reqs, done := o.done }
+      else { yields := [], reqs := [r], done := true }
+
 end TdModel.C39
